@@ -435,6 +435,33 @@ def push_pop_override(ctx: Ctx, rule: str) -> None:
                    f"the delegated {missing[0]}_states resolves them again and operates on that state / with that policy instead of the {op}ed one")
 
 
+def overwrite_target(ctx: Ctx, rule: str) -> None:
+    """set_states with a forcing first letter removes the existing state before setting it again: the state that is removed is the state
+    that is set - `unset_state` is overwritten with `set_state` on the way to the backend's unset, whatever the object's parameters
+    carried as unset_state before (that one belongs to a later unset_states call)."""
+    from ..facts import dict_writes
+
+    fref, loop = _object_loop(ctx, "set_states")
+    sp = loop.target.id
+    unsets = [c for c in calls_in(loop) if call_name(c) in ("unset", "unset_root") and ast.unparse(c.func.value) == "state_backend"]
+    if not unsets:
+        raise AnalysisError(f"{fref}: the overwrite branch (backend unset before set) was not found")
+    state_locals = {ast.unparse(a_.targets[0]) for a_ in ast.walk(loop) if isinstance(a_, ast.Assign) and ast.unparse(a_.value) == f"{sp}['set_state']"} | {f"{sp}['set_state']"}
+    writes = [(k, v, site) for k, v, site in dict_writes(loop, sp) if isinstance(k, ast.Constant) and k.value == "unset_state"]
+    soft = [c for c in calls_in(loop) if call_name(c) == "setdefault" and ast.unparse(c.func.value) == sp and c.args and isinstance(c.args[0], ast.Constant) and c.args[0].value == "unset_state"]
+    ok = len(writes) == 1 and ast.unparse(writes[0][1]) in state_locals and not soft
+    if ok:
+        # the store dominates every backend unset of the branch: same innermost if-body, earlier position
+        site = writes[0][2]
+        for u in unsets:
+            holder = next((i_ for i_ in ast.walk(loop) if isinstance(i_, ast.If) and any(x is site for x in i_.body) and any(y is u for b in i_.body for y in ast.walk(b))), None)
+            ok = ok and holder is not None
+    ctx.record(rule, "PROV", fref, "the state removed by a forced set is the state being set: unset_state = set_state is stored unconditionally before the backend's unset", ok,
+               {"writes": [ast.unparse(w[2])[:80] for w in writes], "conditional_defaults": [ast.unparse(c) for c in soft]},
+               "" if ok else "set_states (first letter f, state present) no longer removes exactly the state it is about to set: an unset_state already carried by the object's parameters is removed instead "
+               "(a state nobody addressed disappears; push with push_mode f? inherits it)")
+
+
 def check_chain(ctx: Ctx, rule: str) -> None:
     fref = f"{SETUP}:_state_check_chain"
     fn = ctx.repo.func(fref)
@@ -667,6 +694,7 @@ def run(ctx: Ctx) -> None:
     ctx.call(op_table, "1", "get")
     ctx.call(op_table, "2", "set")
     ctx.call(op_table, "3", "unset")
+    ctx.call(overwrite_target, "2u")
     ctx.call(check_table, "4")
     ctx.call(root_fetch_purpose, "4g")
     ctx.call(vm_type_spelling, "4v")
@@ -681,6 +709,7 @@ def run(ctx: Ctx) -> None:
 
 
 MUTANTS = [
+    ('forced-set-removes-configured-unset-state', 'states/setup.py', '            state_params["unset_state"] = state_params["set_state"]\n', '            state_params.setdefault("unset_state", state_params["set_state"])\n', '2u'),
     ('push-keeps-suffixed-set-state', 'states/setup.py', '        _state_operation_override(\n            state_params, "set", state, state_params.get("push_mode", "af")\n        )\n', '        state_params["set_state"] = state_params["push_state"]\n        state_params["set_mode"] = state_params.get("push_mode", "af")\n', '5v'),
     ('override-deletes-nothing', 'states/setup.py', '        if key.startswith(f"{do}_state_") or key.startswith(f"{do}_mode_"):\n            del state_params[key]\n', '        if key.startswith(f"{do}_state_") and key.startswith(f"{do}_mode_"):\n            del state_params[key]\n', '5v'),
     ('forced-vm-check-full-spelling-only', 'states/setup.py', '            if params_obj_type in ["vms", "nets/vms"]:\n                vm.destroy(', '            if params_obj_type == "nets/vms":\n                vm.destroy(', '4v'),
